@@ -14,15 +14,20 @@
 //	                                          checkCoinbaseTransactionContext alone
 //	cbs …same…                                real coinbase SanityCheck first, then the context check
 //	sw <validate> <nArb> <k> {<index>}*k      signer loop of checkSchnorrWithdrawFromSidechain
+//	blk <auxOk> <powOk> <tsOk> <maxTx> <flags> CheckBlockSanity on an assembled, serialized and decoded block (see execBlk)
+//	rdc <addrs> <np> {<code> <registered>}*    ReturnDepositCoin SpecialContextCheck signer loop (see execRdc)
 package main
 
 import (
 	"bytes"
+	"encoding/hex"
 	"fmt"
 	"math"
+	"math/big"
 	mrand "math/rand"
 	"strconv"
 	"strings"
+	"time"
 
 	"elaverif/harness/hx"
 
@@ -34,11 +39,15 @@ import (
 	"github.com/elastos/Elastos.ELA/core/contract"
 	"github.com/elastos/Elastos.ELA/core/contract/program"
 	"github.com/elastos/Elastos.ELA/core/transaction"
+	"github.com/elastos/Elastos.ELA/core/types"
 	ctypes "github.com/elastos/Elastos.ELA/core/types/common"
 	"github.com/elastos/Elastos.ELA/core/types/functions"
+	"github.com/elastos/Elastos.ELA/core/types/interfaces"
+	"github.com/elastos/Elastos.ELA/core/types/outputpayload"
 	"github.com/elastos/Elastos.ELA/core/types/payload"
 	"github.com/elastos/Elastos.ELA/crypto"
 	"github.com/elastos/Elastos.ELA/dpos/state"
+	"github.com/elastos/Elastos.ELA/elanet/pact"
 )
 
 func b2s(b bool) string {
@@ -326,6 +335,173 @@ func execSw(t []string) string {
 	return "loop-ok" // the signer loop was left normally (whatever the later checks said)
 }
 
+// ---------------------------------------------------------------- block sanity head
+//
+//	blk <auxOk> <powOk> <tsOk> <maxTx> <flags>     flags: one character per transaction, 1 = coinbase, 0 = transfer, "-" = no transaction
+//
+// A block is assembled (header, merged-mining proof committing to the header hash, parent header
+// solved against an easy target), serialized, DEserialized, and given to the real CheckBlockSanity.
+// Answer: err <class> for the rejections up to the coinbase-position tests, `later` for anything after.
+
+func sanityParams() *config.Configuration {
+	p := *config.GetDefaultParams()
+	p.PowConfiguration.PowLimit = new(big.Int).Sub(new(big.Int).Lsh(big.NewInt(1), 255), big.NewInt(1))
+	return &p
+}
+
+func plainTx(r *hx.Rand, coinbase bool) interfaces.Transaction {
+	out := func() *ctypes.Output {
+		var ph common.Uint168
+		copy(ph[:], r.Bytes(21))
+		ph[0] = 0x21
+		return &ctypes.Output{AssetID: core.ELAAssetID, Value: common.Fixed64(r.Intn(1000)), ProgramHash: ph, Type: ctypes.OTNone,
+			Payload: &outputpayload.DefaultOutput{}}
+	}
+	if coinbase {
+		return functions.CreateTransaction(ctypes.TxVersion09, ctypes.CoinBase, 0, &payload.CoinBase{Content: r.Bytes(4)},
+			[]*ctypes.Attribute{}, []*ctypes.Input{{Previous: ctypes.OutPoint{TxID: common.EmptyHash, Index: math.MaxUint16}, Sequence: math.MaxUint32}},
+			[]*ctypes.Output{out(), out()}, 0, []*program.Program{})
+	}
+	var id common.Uint256
+	copy(id[:], r.Bytes(32))
+	return functions.CreateTransaction(ctypes.TxVersion09, ctypes.TransferAsset, 0, &payload.TransferAsset{},
+		[]*ctypes.Attribute{{Usage: ctypes.Nonce, Data: r.Bytes(8)}}, []*ctypes.Input{{Previous: ctypes.OutPoint{TxID: id, Index: 0}, Sequence: 0}},
+		[]*ctypes.Output{out()}, 0, []*program.Program{{Code: make([]byte, 35), Parameter: make([]byte, 65)}})
+}
+
+func execBlk(t []string) string {
+	auxOk, powOk, tsOk := t[1] == "1", t[2] == "1", t[3] == "1"
+	if atoi(t[4]) != int(pact.MaxTxPerBlock) {
+		return "oracle-mismatch"
+	}
+	r := hx.NewRand(uint64(len(t[5])) + 77)
+	blk := &types.Block{}
+	blk.Header.Version = 0
+	blk.Header.Height = 100
+	blk.Header.Timestamp = uint32(time.Now().Unix() - 100)
+	if !tsOk {
+		blk.Header.Timestamp = uint32(time.Now().Unix() + 3*3600 + 100)
+	}
+	blk.Header.Bits = 0x207fffff
+	if !powOk {
+		blk.Header.Bits = 0x1900ffff
+	}
+	if t[5] != "-" {
+		for _, c := range t[5] {
+			blk.Transactions = append(blk.Transactions, plainTx(r, c == '1'))
+		}
+	}
+	hash := blk.Header.Hash()
+	root := auxRootRev(hash, 0, 0)
+	script := append(append([]byte{0xfa, 0xbe, 'm', 'm'}, root...), 1, 0, 0, 0, 0, 0, 0, 0)
+	blk.Header.AuxPow = *buildAuxPow(auxOk, 1, script, 0, 0)
+	if powOk { // solve the parent header against the easy target
+		target := blockchain.CompactToBig(blk.Header.Bits)
+		for n := uint32(0); n < 1000; n++ {
+			blk.Header.AuxPow.ParBlockHeader.Nonce = n
+			h := blk.Header.AuxPow.ParBlockHeader.Hash()
+			if blockchain.HashToBig(&h).Cmp(target) <= 0 {
+				break
+			}
+		}
+	}
+	buf := new(bytes.Buffer)
+	if err := blk.Serialize(buf); err != nil {
+		panic("harness: block serialize: " + err.Error())
+	}
+	var dec types.Block
+	if err := dec.Deserialize(bytes.NewReader(buf.Bytes())); err != nil {
+		return "undecodable"
+	}
+	chain := blockchain.VerifC03Chain(sanityParams(), nil)
+	err := chain.CheckBlockSanity(&dec)
+	if err == nil {
+		return "later"
+	}
+	s := err.Error()
+	switch {
+	case strings.Contains(s, "check aux pow failed"):
+		return "err auxpow"
+	case strings.Contains(s, "proof of work failed"):
+		return "err pow"
+	case strings.Contains(s, "too far in the future"), strings.Contains(s, "higher precision"):
+		return "err time"
+	case strings.Contains(s, "does not contain any transactions"):
+		return "err notx"
+	case strings.Contains(s, "too many"):
+		return "err toomany"
+	case strings.Contains(s, "header is too big"):
+		return "err headersize"
+	case strings.Contains(s, "serialized block is too big"):
+		return "err blocksize"
+	case strings.Contains(s, "first transaction in block is not a coinbase"):
+		return "err nocoinbase"
+	case strings.Contains(s, "second coinbase"):
+		return "err second-coinbase"
+	}
+	return "later"
+}
+
+// ---------------------------------------------------------------- ReturnDepositCoin signer loop
+//
+//	rdc <number of distinct referenced addresses> <np> {<code> <registered 0|1>}*np
+//
+// The real ReturnDepositCoinTransaction.SpecialContextCheck on a chain whose DPoS state has a
+// producer registered under the key of every program marked 1 (multi-sig code: the code itself,
+// otherwise Code[1:len-1]).
+
+func execRdc(t []string) string {
+	addrCount, np := atoi(t[1]), atoi(t[2])
+	st := &state.State{StateKeyFrame: state.NewStateKeyFrame()}
+	var progs []*program.Program
+	for k := 0; k < np; k++ {
+		code := exact(hx.UnHex(t[3+2*k]))
+		if t[4+2*k] == "1" {
+			key := code
+			if !contract.IsMultiSig(code) {
+				if len(code) < 2 {
+					panic("harness: cannot register a code shorter than 2 bytes")
+				}
+				key = code[1 : len(code)-1]
+			}
+			st.ActivityProducers[hex.EncodeToString(key)] = &state.Producer{}
+		}
+		progs = append(progs, &program.Program{Code: code, Parameter: []byte{}})
+	}
+	params := config.GetDefaultParams()
+	chain := blockchain.VerifC03Chain(params, st)
+	refs := map[*ctypes.Input]ctypes.Output{}
+	var ins []*ctypes.Input
+	for k := 0; k < addrCount; k++ {
+		in := &ctypes.Input{Previous: ctypes.OutPoint{Index: uint16(k)}}
+		ins = append(ins, in)
+		var ph common.Uint168
+		ph[0] = 0x1f
+		ph[1] = byte(k + 1)
+		refs[in] = ctypes.Output{Value: 100, ProgramHash: ph}
+	}
+	tx := functions.CreateTransaction(ctypes.TxVersion09, ctypes.ReturnDepositCoin, 0, &payload.ReturnDepositCoin{},
+		[]*ctypes.Attribute{}, ins, []*ctypes.Output{}, 0, progs)
+	if e := tx.SetParameters(&transaction.TransactionParameters{Transaction: tx, BlockHeight: 1000000, Config: params, BlockChain: chain}); e != nil {
+		panic("harness: SetParameters")
+	}
+	tx.SetReferences(refs)
+	err, _ := tx.SpecialContextCheck()
+	if err == nil {
+		return "ok"
+	}
+	s := err.Error()
+	switch {
+	case strings.Contains(s, "UTXO should from same deposit address"):
+		return "err sameaddr"
+	case strings.Contains(s, "signer must be producer"):
+		return "err signer"
+	case strings.Contains(s, "overspend deposit"):
+		return "err overspend"
+	}
+	return "err other:" + strings.ReplaceAll(s, " ", "_")
+}
+
 // ---------------------------------------------------------------- exec
 
 func exec(t []string) string {
@@ -366,6 +542,10 @@ func exec(t []string) string {
 		return execCb(t, true)
 	case "sw":
 		return execSw(t)
+	case "blk":
+		return execBlk(t)
+	case "rdc":
+		return execRdc(t)
 	}
 	panic("harness: unknown op " + t[0])
 }
@@ -379,6 +559,13 @@ func oracle(t []string, out string) *hx.Violation {
 	}
 	if t[0] == "cb" && atoi(t[9]) < 2 {
 		return nil
+	}
+	if t[0] == "rdc" { // program codes below the sanity minimum (23 bytes) never reach the context check
+		for k := 0; k < atoi(t[2]); k++ {
+			if len(hx.UnHex(t[3+2*k])) < 23 {
+				return nil
+			}
+		}
 	}
 	return &hx.Violation{Kind: "panic-" + t[0], Detail: "validation panicked: " + hx.LastPanic()}
 }
@@ -817,8 +1004,55 @@ func genSw(g *hx.Gen) {
 	}
 }
 
+func genBlk(g *hx.Gen) {
+	flags := []string{"-", "1", "0", "10", "11", "01", "00", "100", "101", "110", "1000", "1001", "0001", "10000000"}
+	for _, f := range flags {
+		for _, aux := range []int{1, 0} {
+			for _, pow := range []int{1, 0} {
+				for _, ts := range []int{1, 0} {
+					g.Emit("blk %d %d %d %d %s", aux, pow, ts, pact.MaxTxPerBlock, f)
+				}
+			}
+		}
+	}
+}
+
+func genRdc(g *hx.Gen) {
+	r := g.R
+	mk := func() (string, bool) { // a program code and whether it may be registered
+		switch r.Intn(7) {
+		case 0, 1: // multi-sig script
+			n := 2 + r.Intn(3)
+			return hx.Hex(msScript(r, []byte{byte(0x51 + r.Intn(n))}, n, []byte{byte(0x50 + n)}, []byte{0xAE})), true
+		case 2, 3: // standard script
+			return hx.Hex(append(append([]byte{33}, keyPush(r)[1:]...), 0xAC)), true
+		case 4: // multi-sig shaped but rejected by IsMultiSig (wrong n)
+			return hx.Hex(msScript(r, []byte{0x51}, 2, []byte{0x55}, []byte{0xAE})), true
+		case 5:
+			return hx.Hex(r.Bytes(23 + r.Intn(20))), true
+		default:
+			return hx.Hex(r.Bytes(r.Intn(4))), false // 0..3 bytes: below the sanity minimum
+		}
+	}
+	for i := 0; i < g.N(400, 6000); i++ {
+		np := r.Intn(4)
+		var b strings.Builder
+		for k := 0; k < np; k++ {
+			code, canReg := mk()
+			reg := 0
+			if canReg && r.Chance(65) {
+				reg = 1
+			}
+			fmt.Fprintf(&b, " %s %d", code, reg)
+		}
+		g.Emit("rdc %d %d%s", r.Pick(1, 1, 1, 1, 0, 2), np, b.String())
+	}
+}
+
 func gen(g *hx.Gen) {
 	mrand.Seed(int64(g.Seed))
+	genBlk(g)
+	genRdc(g)
 	genScripts(g)
 	genGei(g)
 	genAuxPow(g)
